@@ -72,6 +72,24 @@ def check(run):
             # an unrelated declaration of the same name in the importing file must not capture the reference
             multi[0] = (multi[0][0], 'const %s = 42;\n' % kname + multi[0][1])
         values.append((single, multi, style))
+    # a local type alias with the name of an imported value (TypeScript keeps the two name spaces apart: the type position sees the alias)
+    for i in range(16 if quick else 200):
+        nm = r.choice(["Tag", "Kind", "Mode"])
+        lit = r.choice(["user", "admin", "m1"])
+        single = [("entry.ts", 'const %s = "%s" as const;\ntype %s = typeof %s;\nexport type X = { t: %s; n: number };\nparse.buildParsers<{ X: X }>();' % (nm, lit, nm, nm, nm))]
+        layout = i % 3
+        if layout == 0:
+            multi = [("entry.ts", 'import { %s } from "./values";\ntype %s = typeof %s;\nexport type X = { t: %s; n: number };\nparse.buildParsers<{ X: X }>();' % (nm, nm, nm, nm)),
+                     ("values.ts", 'export const %s = "%s" as const;' % (nm, lit))]
+        elif layout == 1:
+            multi = [("entry.ts", 'import { %s } from "./values";\ntype %s = typeof %s;\nexport type X = { t: %s; n: number };\nparse.buildParsers<{ X: X }>();' % (nm, nm, nm, nm)),
+                     ("values.ts", 'export * from "./legacy";\nexport const %s = "%s" as const;' % (nm, lit)),
+                     ("legacy.ts", "export type %s = number;" % nm)]
+        else:
+            multi = [("entry.ts", 'import { X } from "./model";\nparse.buildParsers<{ X: X }>();'),
+                     ("model.ts", 'import { %s } from "./values";\ntype %s = typeof %s;\nexport type X = { t: %s; n: number };' % (nm, nm, nm, nm)),
+                     ("values.ts", 'export const %s = "%s" as const;' % (nm, lit))]
+        values.append((single, multi, "local-type-shadows-imported-value"))
     # unresolvable references must be diagnostics
     unresolved = []
     for i in range(20 if quick else 200):
